@@ -67,6 +67,10 @@ var knownRules = map[string][][]string{
 	"ambiguous-promoted-method-in-method-set":   {{"ambiguous-method"}},
 	"assert-empty-to-host-iface-indirect-method": {{"form:assertion", "assert:from-empty", "assert:to-host-iface", "dyn-indirect-method"},
 		{"iface:any-assert", "iface:host", "dyn-indirect-method"}},
+	"assert-host-iface-to-iface": {
+		{"form:assertion", "assert:from-host-iface", "assert:to-user-iface", "!assert:nil-source"},
+		{"form:assertion", "assert:from-host-iface", "assert:to-anon-iface", "!assert:nil-source"},
+		{"form:assertion", "assert:from-host-iface", "assert:to-host-iface", "!assert:nil-source"}},
 	"typeswitch-empty-nobind-unwrapped-value": {{"sw:from-empty", "sw:nobind"}},
 	"typeswitch-interface-case":               {{"sw:case-iface"}, {"sw:case-host-iface"}},
 	"typeswitch-nil-case-nonempty-iface":      {{"sw:from-iface", "sw:nil-case", "sw:nil-value"}},
